@@ -54,7 +54,8 @@ New ==
     /\ IsEvent("new")
     /\ LET e == Rec[tpos] IN
        /\ e.type \in TypeNames
-       /\ e.via \in {"new", "checked"} => Len(e.key) = ArrayKeyLen(e.type)
+       \* the fixed-size constructor takes KeySize bytes, whatever KeySize is: it must be a length the algorithm defines
+       /\ e.via \in {"new", "checked"} => Len(e.key) \in KeyLens(e.type)
        /\ e.out = Expected(e)                       \* never "panic" (C11, C20)
        /\ IF e.out = "ok"
           THEN inst' = Put(inst, e.id, [type |-> e.type, class |-> Class(e.type, e.key, e.x), flip |-> Flipped(e.type, e.key)])
@@ -71,7 +72,6 @@ Clone ==
     /\ LET e == Rec[tpos] IN
        /\ e.out = "ok"
        /\ e.src \in DOMAIN inst
-       /\ Cloneable(inst[e.src].type)
        /\ inst' = Put(inst, e.id, inst[e.src])
     /\ UNCHANGED <<perm, lanes, seen1, names, zimgs>>
 
@@ -262,11 +262,10 @@ TypeInfo ==
     /\ LET e == Rec[tpos] IN
        /\ e.type \in TypeNames
        /\ e.bs = BlockLen(e.type)
-       /\ e.key_size = ArrayKeyLen(e.type)
+       /\ e.key_size \in KeyLens(e.type)          \* (which of the accepted lengths KeySize is, is not pinned)
        /\ e.kind = Kind(e.type)
        /\ {e.conv[i] : i \in 1..Len(e.conv)} = ConvTargets(e.type)
-       /\ e.clone = Cloneable(e.type)
-       /\ e.send /\ e.sync
+       /\ e.send /\ e.sync                       \* (whether a type is Clone is not pinned either: only what a clone computes)
     /\ UNCHANGED <<inst, perm, lanes, seen1, names, zimgs>>
 
 \* events of other layers (checked by the L2 conformance specs) and pure bookkeeping
